@@ -1166,7 +1166,11 @@ func runLive(c LiveCase, x *h.Ctx) {
 		redials += p.redials
 	}
 	if redials > 0 {
-		x.Label("harness-redialled-a-lost-peer")
+		if victim != nil {
+			x.Label("harness-redialled:peer-after-its-restart")
+		} else {
+			x.Label("harness-redialled:peer-lost-without-restart")
+		}
 	}
 	switch {
 	case elapsed < 10*time.Second:
